@@ -142,3 +142,23 @@ package interpreter
 //@   requires i != nil && i.ctx != nil
 //@   ensures [locals-restored C13] err == nil ==> i.localVars == old(i.localVars)
 //@   ensures [captures-restored C13] err == nil ==> i.ctx == old(i.ctx) && i.ctx.RegexMatchedValues == old(i.ctx.RegexMatchedValues)
+
+// ---- C08: crash-freedom sweep over the interpreter core -------------------------------------------
+// Every method of *Interpreter is `safe` under a non-nil interpreter/context and well-formed (wf)
+// syntax trees (ast type invariants). Undischarged obligations: /verif/unproved/C08.txt.
+
+//@ forall-funcs ^\(\*Interpreter\)\. [C08]
+//@   requires? i != nil && i.ctx != nil
+//@   safe
+
+// ---- C08 / C13: the subroutine call stack is balanced ----------------------------------------------
+// Every interpreter method that can (transitively) push a call frame leaves the stack exactly as
+// deep as it found it when it reports no error, and never shallower. Proved modularly through
+// the recursion statement -> call -> subroutine -> statement; it is what makes the deferred pop in
+// ProcessSubroutine safe and the depth guard (maxCallStackExceedCount) meaningful.
+
+//@ forall-funcs ^\(\*Interpreter\)\.(Process[A-Z]\w*|processExpression|restart|createBackendRequest|createDirectorRequest|getBackendProperty|getDirectorConfig|getOriginHostHeader|sendBackendRequest|setDirectorConfigProperty)$ [C08 C13]
+//@   except ^\(\*Interpreter\)\.(ProcessInit|ProcessTestSubroutine|ProcessDeclarations|ProcessBackends)$
+//@   ensures [stack-never-shallower C08] len(i.callStack) >= old(len(i.callStack))
+//@   ensures? [stack-balanced C08 C13] err == nil ==> len(i.callStack) == old(len(i.callStack))
+//@   loop? * invariant len(i.callStack) == old(len(i.callStack))
